@@ -237,6 +237,98 @@ theorem exists_of_count_pos {N : Nat} {p : Nat → Prop} [DecidablePred p]
   simp only [Finset.mem_filter, Finset.mem_range] at hk
   exact ⟨k, hk⟩
 
+/-- a function `f` of the output: the states with `f (out t) = v` correspond to the pairs
+    (an output value `y` with `f y = v`, a value of the remaining coordinates) -/
+theorem card_fibre_comp {σ ρ α β γ : Type} [Fintype σ] [Fintype ρ] [Fintype β] [DecidableEq β]
+    [DecidableEq γ] (sp : Split σ α ρ) (out : σ → β) (φ : ρ → α → β) (ψ : ρ → β → α)
+    (hout : ∀ a r, out (sp.join a r) = φ r a)
+    (hφψ : ∀ r y, φ r (ψ r y) = y) (hψφ : ∀ r a, ψ r (φ r a) = a) (f : β → γ) (v : γ) :
+    (Finset.univ.filter (fun t : σ => f (out t) = v)).card
+      = (Finset.univ.filter (fun y : β => f y = v)).card * Fintype.card ρ := by
+  rw [← Finset.card_univ (α := ρ), ← Finset.card_product]
+  have key : ∀ t, sp.join (ψ (sp.snd t) (out t)) (sp.snd t) = t := by
+    intro t
+    have e : out t = φ (sp.snd t) (sp.fst t) := by rw [← hout, sp.join_eta]
+    rw [e, hψφ, sp.join_eta]
+  apply Finset.card_bij (fun t _ => (out t, sp.snd t))
+  · intro t ht
+    simp only [Finset.mem_filter, Finset.mem_univ, true_and] at ht
+    simp only [Finset.mem_product, Finset.mem_filter, Finset.mem_univ, true_and, and_true]
+    exact ht
+  · intro t _ t' _ h
+    have h1 : out t = out t' := congrArg Prod.fst h
+    have h2 : sp.snd t = sp.snd t' := congrArg Prod.snd h
+    rw [← key t, ← key t', h1, h2]
+  · intro p hp
+    simp only [Finset.mem_product, Finset.mem_filter, Finset.mem_univ, true_and, and_true] at hp
+    refine ⟨sp.join (ψ p.2 p.1) p.2, ?_, ?_⟩
+    · simp only [Finset.mem_filter, Finset.mem_univ, true_and]
+      rw [hout, hφψ]; exact hp
+    · rw [hout, hφψ, sp.snd_join]
+
+/-- **Equidistribution of a derived output** `out' = f ∘ out` when every value of `f` has `2^d`
+    preimages (e.g. the upper or lower half of a 64-bit output). -/
+theorem states_count_comp {σ ρ : Type} {w w' m d : Nat} [Fintype σ] [DecidableEq σ] [Fintype ρ]
+    (sp : Split σ (BitVec w) ρ) (hρ : Fintype.card ρ = 2 ^ m) (z : σ) (out : σ → BitVec w)
+    (φ : ρ → BitVec w → BitVec w) (ψ : ρ → BitVec w → BitVec w)
+    (hout : ∀ a r, out (sp.join a r) = φ r a)
+    (hφψ : ∀ r y, φ r (ψ r y) = y) (hψφ : ∀ r a, ψ r (φ r a) = a)
+    (f : BitVec w → BitVec w')
+    (hf : ∀ v, (@Finset.univ _ (bitVecFintype w) |>.filter (fun y : BitVec w => f y = v)).card = 2 ^ d)
+    (out' : σ → BitVec w') (hout' : ∀ t, out' t = f (out t)) (hz : out' z = 0)
+    (v : BitVec w') :
+    (Finset.univ.filter (fun t : σ => t ≠ z ∧ out' t = v)).card
+      = if v = 0 then 2 ^ (d + m) - 1 else 2 ^ (d + m) := by
+  have e : (Finset.univ.filter (fun t : σ => out' t = v)).card = 2 ^ (d + m) := by
+    have : (fun t : σ => out' t = v) = (fun t : σ => f (out t) = v) := by
+      funext t; rw [hout']
+    simp only [this]
+    rw [@card_fibre_comp σ ρ (BitVec w) (BitVec w) (BitVec w') _ _ (bitVecFintype w) _ _
+      sp out φ ψ hout hφψ hψφ f v, hf, hρ, Nat.pow_add]
+  rw [card_nonzero_fibre, e, hz]
+  by_cases h : v = 0
+  · subst h; simp
+  · rw [if_neg h, if_neg (fun e => h e.symm)]
+
+/-! ### the two halves of a `u64` -/
+
+/-- `hi‖lo` -/
+def joinHL (hi lo : U32) : U64 := (hi.setWidth 64 <<< 32) ||| lo.setWidth 64
+
+theorem upper_join (hi lo : U32) : ((joinHL hi lo) >>> 32).setWidth 32 = hi := by
+  unfold joinHL
+  apply BitVec.eq_of_getLsbD_eq
+  intro i hi'
+  simp only [BitVec.getLsbD_setWidth, BitVec.getLsbD_ushiftRight, BitVec.getLsbD_or,
+    BitVec.getLsbD_shiftLeft]
+  have h1 : ¬ (32 + i < 32) := by omega
+  have h2 : 32 + i < 64 := by omega
+  have h3 : 32 + i - 32 = i := by omega
+  have h5 : i < 64 := by omega
+  simp [hi', h1, h2, h3, h5]
+
+theorem lower_join (hi lo : U32) : (joinHL hi lo).setWidth 32 = lo := by
+  unfold joinHL
+  apply BitVec.eq_of_getLsbD_eq
+  intro i hi'
+  simp only [BitVec.getLsbD_setWidth, BitVec.getLsbD_or, BitVec.getLsbD_shiftLeft]
+  have h1 : i < 32 := hi'
+  have h2 : i < 64 := by omega
+  simp [h1, h2]
+
+theorem joinHL_eta (y : U64) : joinHL ((y >>> 32).setWidth 32) (y.setWidth 32) = y := by
+  unfold joinHL
+  apply BitVec.eq_of_getLsbD_eq
+  intro i hi'
+  simp only [BitVec.getLsbD_setWidth, BitVec.getLsbD_ushiftRight, BitVec.getLsbD_or,
+    BitVec.getLsbD_shiftLeft]
+  by_cases h : i < 32
+  · simp [h, hi']
+  · have h3 : 32 + (i - 32) = i := by omega
+    have h4 : i - 32 < 32 := by omega
+    have h5 : i - 32 < 64 := by omega
+    simp [h, hi', h3, h4, h5]
+
 /-- both frequencies are positive -/
 theorem count_pos {w m : Nat} (hm : m ≠ 0) (y : BitVec w) :
     0 < (if y = 0 then 2 ^ m - 1 else 2 ^ m) := by
@@ -309,5 +401,33 @@ theorem card_R7 : Fintype.card R7 = 2 ^ 448 := by
   rw [Fintype.card_prod, Fintype.card_prod, Fintype.card_prod, Fintype.card_prod,
     Fintype.card_prod, Fintype.card_prod, card_bitVec, ← Nat.pow_add, ← Nat.pow_add,
     ← Nat.pow_add, ← Nat.pow_add, ← Nat.pow_add, ← Nat.pow_add]
+
+/-- `U64`, distinguished: the upper half -/
+def splitHi : Split U64 U32 U32 where
+  join a r := joinHL a r
+  fst y := (y >>> 32).setWidth 32
+  snd y := y.setWidth 32
+  join_eta := joinHL_eta
+  snd_join := lower_join
+
+/-- `U64`, distinguished: the lower half -/
+def splitLo : Split U64 U32 U32 where
+  join a r := joinHL r a
+  fst y := y.setWidth 32
+  snd y := (y >>> 32).setWidth 32
+  join_eta := joinHL_eta
+  snd_join a r := upper_join r a
+
+/-- every 32-bit value is the upper half of exactly `2^32` 64-bit values -/
+theorem card_upper (v : U32) :
+    (Finset.univ.filter (fun y : U64 => (y >>> 32).setWidth 32 = v)).card = 2 ^ 32 :=
+  (card_fibre splitHi (fun y : U64 => ((y >>> 32).setWidth 32 : U32)) (fun _ a => a) (fun _ y => y)
+    (fun a r => upper_join a r) (fun _ _ => rfl) (fun _ _ => rfl) v).trans (card_bitVec 32)
+
+/-- every 32-bit value is the lower half of exactly `2^32` 64-bit values -/
+theorem card_lower (v : U32) :
+    (Finset.univ.filter (fun y : U64 => (y.setWidth 32 : U32) = v)).card = 2 ^ 32 :=
+  (card_fibre splitLo (fun y : U64 => (y.setWidth 32 : U32)) (fun _ a => a) (fun _ y => y)
+    (fun a r => lower_join r a) (fun _ _ => rfl) (fun _ _ => rfl) v).trans (card_bitVec 32)
 
 end Rngs.Equidist
